@@ -1,6 +1,8 @@
 package main
 
 import (
+	"fmt"
+	"os"
 	"go/ast"
 	"go/constant"
 	"go/token"
@@ -80,7 +82,69 @@ func c13r1(p *Program, r *Report) {
 			}
 			ngo++
 			fs, _ := p.enclosing(gs, sp.Decl, func(n ast.Node) bool { _, ok := n.(*ast.ForStmt); return ok }).(*ast.ForStmt)
-			bounded := fs != nil && fs.Cond != nil && strings.Contains(exprStr(fs.Cond), ".Attempts()") && fs.Post != nil
+			// the loop runs while a counter is below sp.Attempts(); the counter advances once per iteration (post
+			// statement) or once per launch (in the statement list of the go statement)
+			bounded := false
+			if fs != nil && fs.Cond != nil {
+				if be, isB := ast.Unparen(fs.Cond).(*ast.BinaryExpr); isB && (be.Op == token.LSS || be.Op == token.NEQ) && strings.HasSuffix(exprStr(be.Y), ".Attempts()") {
+					if cid, isId := ast.Unparen(be.X).(*ast.Ident); isId {
+						isInc := func(st ast.Stmt) bool {
+							switch s := st.(type) {
+							case *ast.IncDecStmt:
+								return s.Tok == token.INC && isIdentOf(sinfo, s.X, sinfo.Uses[cid])
+							case *ast.AssignStmt:
+								if s.Tok == token.ADD_ASSIGN && len(s.Lhs) == 1 && isIdentOf(sinfo, s.Lhs[0], sinfo.Uses[cid]) {
+									k, ok := constInt(sinfo, s.Rhs[0])
+									return ok && k == 1
+								}
+							}
+							return false
+						}
+						ninc, near := 0, false
+						if fs.Post != nil && isInc(fs.Post) {
+							ninc++
+							near = true
+						}
+						ast.Inspect(fs.Body, func(m ast.Node) bool {
+							if st, ok := m.(ast.Stmt); ok && isInc(st) {
+								ninc++
+								// in the same statement list as the launch
+								var list []ast.Stmt
+								switch pn := p.Parent(st).(type) {
+								case *ast.BlockStmt:
+									list = pn.List
+								case *ast.CommClause:
+									list = pn.Body
+								case *ast.CaseClause:
+									list = pn.Body
+								}
+								for _, o := range list {
+									if o == ast.Stmt(gs) {
+										near = true
+									}
+								}
+							}
+							return true
+						})
+						// the counter is not changed otherwise
+						other := 0
+						ast.Inspect(fs.Body, func(m ast.Node) bool {
+							if as, ok := m.(*ast.AssignStmt); ok && !isInc(as) {
+								for _, l := range as.Lhs {
+									if isIdentOf(sinfo, l, sinfo.Uses[cid]) {
+										other++
+									}
+								}
+							}
+							if ids, ok := m.(*ast.IncDecStmt); ok && ids.Tok == token.DEC && isIdentOf(sinfo, ids.X, sinfo.Uses[cid]) {
+								other++
+							}
+							return true
+						})
+						bounded = ninc == 1 && near && other == 0
+					}
+				}
+			}
 			// at most one launch per iteration
 			cnt := 0
 			if fs != nil {
@@ -138,6 +202,15 @@ func c13r2(p *Program, r *Report) {
 	g := p.GraphOf(fi)
 	facts := g.GuardFacts()
 	n := 0
+	// the retry policy variable: the receiver of the Attempt call
+	polName := ""
+	for _, c := range callsIn(fi.Decl.Body) {
+		if strings.HasSuffix(calleeName(g.Info, c), "RetryPolicy.Attempt") {
+			if rc := recvExpr(c); rc != nil {
+				polName = exprStr(rc)
+			}
+		}
+	}
 	ast.Inspect(fs.Body, func(x ast.Node) bool {
 		br, ok := x.(*ast.BranchStmt)
 		if !ok || br.Tok != token.CONTINUE || br.Pos() < attempt.Pos() {
@@ -148,9 +221,9 @@ func c13r2(p *Program, r *Report) {
 		var rtOK, attOK, idemOK bool
 		for atom, v := range f.m {
 			switch {
-			case strings.HasSuffix(atom, " == nil") && strings.HasPrefix(atom, "rt") && !v:
+			case strings.HasSuffix(atom, " == nil") && polName != "" && strings.TrimSuffix(atom, " == nil") == polName && !v:
 				rtOK = true
-			case strings.HasSuffix(atom, ".Attempt(qry)") && v:
+			case polName != "" && strings.HasPrefix(atom, polName+".Attempt(") && v:
 				attOK = true
 			case strings.HasSuffix(atom, ".IsIdempotent()") && v:
 				idemOK = true
@@ -186,79 +259,122 @@ func c13r3(p *Program, r *Report) {
 			declared[nme] = true
 		}
 	}
-	var sw *ast.SwitchStmt
-	ast.Inspect(fi.Decl.Body, func(x ast.Node) bool {
-		if s, ok := x.(*ast.SwitchStmt); ok && s.Tag != nil {
-			if c, ok := ast.Unparen(s.Tag).(*ast.CallExpr); ok && strings.HasSuffix(calleeName(info, c), ".GetRetryType") {
-				sw = s
+	// interpret do(): each path through the loop body that consults GetRetryType restricts the decision to some
+	// constants (switch clause or ==-chain); what the path then does is compared with the contract of that decision
+	var hostIterName, selVar string
+	if fi.Decl.Type.Params != nil {
+		for _, pf := range fi.Decl.Type.Params.List {
+			if typeNameOf(info.TypeOf(pf.Type)) == "NextHost" && len(pf.Names) == 1 {
+				hostIterName = pf.Names[0].Name
 			}
 		}
-		return true
-	})
-	if sw == nil {
-		r.Unresolved("do: no switch over GetRetryType")
+	}
+	if hostIterName == "" {
+		r.Unresolved("do: no NextHost parameter")
 		return
 	}
-	seen := map[string]*ast.CaseClause{}
-	var def *ast.CaseClause
-	for _, cl := range sw.Body.List {
-		cc := cl.(*ast.CaseClause)
-		if cc.List == nil {
-			def = cc
+	var grt *ast.CallExpr
+	for _, c := range callsIn(fi.Decl.Body) {
+		if strings.HasSuffix(calleeName(info, c), ".GetRetryType") {
+			grt = c
+		}
+	}
+	if grt == nil {
+		r.Unresolved("do: GetRetryType is never consulted")
+		return
+	}
+	tr := newReadTracer(p)
+	tr.prims = map[string]string{}
+	tr.primVars = map[string]string{hostIterName: "nexthost"}
+	tr.noAuto = func(string) bool { return true }
+	type outcome struct {
+		hostCalls int
+		dst       string
+		end       string
+		ret       string
+	}
+	byDecision := map[string][]outcome{}
+	var anyNode ast.Node = fi.Decl
+	for _, st := range tr.run(fi, 4) {
+		in, restricted, found := st.decided(declared)
+		if !found {
 			continue
 		}
-		for _, e := range cc.List {
-			seen[exprStr(e)] = cc
+		var loop *TraceItem
+		ft := flat(st.trace)
+		for i := range ft {
+			if ft[i].Prim == "loop" {
+				loop = &ft[i]
+			}
+			if ft[i].Prim == "nexthost" && ft[i].Dst != "" && loop == nil {
+				selVar = ft[i].Dst
+			}
 		}
-	}
-	for name := range declared {
-		r.Check(seen[name] != nil, sw, "(*queryExecutor).do handles retry decision "+name, "has a case", "retry decision "+name+" has no case in the executor: it falls to the default")
-	}
-	hostIterCalls := func(cc *ast.CaseClause) int {
-		n := 0
-		for _, st := range cc.Body {
-			ast.Inspect(st, func(m ast.Node) bool {
-				if c, ok := m.(*ast.CallExpr); ok {
-					if id, ok := ast.Unparen(c.Fun).(*ast.Ident); ok && id.Name == "hostIter" {
-						n++
-					}
+		if loop == nil {
+			continue
+		}
+		o := outcome{end: loop.End}
+		for _, it := range loop.Body {
+			if it.Prim == "nexthost" && it.Pos > grt.Pos() {
+				o.hostCalls++
+				o.dst = it.Dst
+			}
+		}
+		if st.retStmt != nil && len(st.retStmt.Results) == 1 && o.end == "return" {
+			o.ret = exprStr(st.retStmt.Results[0])
+			ast.Inspect(st.retStmt.Results[0], func(m ast.Node) bool {
+				if id, ok := m.(*ast.Ident); ok && id.Name == "ErrUnknownRetryType" {
+					o.ret = "ErrUnknownRetryType"
 				}
 				return true
 			})
 		}
-		return n
-	}
-	endsWith := func(cc *ast.CaseClause, tok token.Token) bool {
-		if len(cc.Body) == 0 {
-			return false
+		if !restricted {
+			byDecision["<other>"] = append(byDecision["<other>"], o)
+			continue
 		}
-		switch s := cc.Body[len(cc.Body)-1].(type) {
-		case *ast.BranchStmt:
-			return s.Tok == tok
-		case *ast.ReturnStmt:
-			return tok == token.RETURN
+		for _, d := range in {
+			byDecision[d] = append(byDecision[d], o)
 		}
-		return false
 	}
-	if cc := seen["Retry"]; cc != nil {
-		r.Check(hostIterCalls(cc) == 0 && endsWith(cc, token.CONTINUE), cc, "(*queryExecutor).do Retry stays on the same host", "continues without asking for another host", "decision Retry asks the host iterator for another host (or does not retry)")
+	if len(tr.unsup) > 0 {
+		r.Unresolved("do: %s", strings.Join(tr.unsup, "; "))
+		return
 	}
-	if cc := seen["RetryNextHost"]; cc != nil {
-		assigns := false
-		for _, st := range cc.Body {
-			if as, ok := st.(*ast.AssignStmt); ok && len(as.Lhs) == 1 && exprStr(as.Lhs[0]) == "selectedHost" {
-				assigns = true
+	if os.Getenv("DBG13") != "" {
+		for d, os := range byDecision {
+			for _, o := range os {
+				fmt.Printf("DBG %s: %+v\n", d, o)
 			}
 		}
-		r.Check(hostIterCalls(cc) == 1 && assigns && endsWith(cc, token.CONTINUE), cc, "(*queryExecutor).do RetryNextHost advances exactly one host", "selectedHost = hostIter() once, then continue", "decision RetryNextHost does not move to exactly the next offered host")
+	}
+	all := func(d string, pred func(o outcome) bool) bool {
+		if len(byDecision[d]) == 0 {
+			return false
+		}
+		for _, o := range byDecision[d] {
+			if !pred(o) {
+				return false
+			}
+		}
+		return true
+	}
+	for name := range declared {
+		r.Check(len(byDecision[name]) > 0, anyNode, "(*queryExecutor).do handles retry decision "+name, "has a branch", "retry decision "+name+" has no branch in the executor: it falls to the default")
+	}
+	continues := func(o outcome) bool { return o.end == "next-iteration" || o.end == "" }
+	if len(byDecision["Retry"]) > 0 {
+		r.Check(all("Retry", func(o outcome) bool { return o.hostCalls == 0 && continues(o) }), anyNode, "(*queryExecutor).do Retry stays on the same host", "continues without asking for another host", "decision Retry asks the host iterator for another host (or does not retry)")
+	}
+	if len(byDecision["RetryNextHost"]) > 0 {
+		r.Check(all("RetryNextHost", func(o outcome) bool { return o.hostCalls == 1 && o.dst == selVar && selVar != "" && continues(o) }), anyNode, "(*queryExecutor).do RetryNextHost advances exactly one host", "selectedHost = hostIter() once, then continue", "decision RetryNextHost does not move to exactly the next offered host")
 	}
 	for _, name := range []string{"Rethrow", "Ignore"} {
-		if cc := seen[name]; cc != nil {
-			r.Check(endsWith(cc, token.RETURN), cc, "(*queryExecutor).do "+name+" stops retrying", "returns", "decision "+name+" does not end the executor loop")
+		if len(byDecision[name]) > 0 {
+			r.Check(all(name, func(o outcome) bool { return o.end == "return" && !strings.Contains(o.ret, "ErrUnknownRetryType") }), anyNode, "(*queryExecutor).do "+name+" stops retrying", "returns", "decision "+name+" does not end the executor loop")
 		}
 	}
-	okDef := def != nil && endsWith(def, token.RETURN) && strings.Contains(exprStrNode(def), "ErrUnknownRetryType")
-	r.Check(okDef, sw, "(*queryExecutor).do unknown decision is an error", "default returns ErrUnknownRetryType", "an undefined retry decision is not reported as ErrUnknownRetryType")
+	r.Check(all("<other>", func(o outcome) bool { return o.end == "return" && strings.Contains(o.ret, "ErrUnknownRetryType") }), anyNode, "(*queryExecutor).do unknown decision is an error", "every other value returns ErrUnknownRetryType", "an undefined retry decision is not reported as ErrUnknownRetryType")
 }
 
 func c13r4(p *Program, r *Report) {
@@ -277,11 +393,22 @@ func c13r4(p *Program, r *Report) {
 		}
 		n++
 		f, _ := facts.Before(c)
+		// the attempt's error, or a local copy of it
+		errNames := []string{"iter.err"}
+		for atom, v := range f.m {
+			if v && strings.HasSuffix(atom, " ≡ iter.err") {
+				errNames = append(errNames, strings.TrimSuffix(atom, " ≡ iter.err"))
+			}
+		}
 		for _, e := range []string{"context.Canceled", "context.DeadlineExceeded", "ErrNotFound"} {
 			excluded := false
 			for atom, v := range f.m {
-				if !v && strings.Contains(atom, " == ") && strings.Contains(atom, e) && strings.Contains(atom, "iter.err") {
-					excluded = true
+				if !v && strings.Contains(atom, " == ") && strings.Contains(atom, e) {
+					for _, en := range errNames {
+						if mentions(atom, en) {
+							excluded = true
+						}
+					}
 				}
 			}
 			r.Check(excluded, c, "(*queryExecutor).do "+exprStr(c.Fun)+" not reached for "+e, "that error returned earlier", "the retry policy is consulted for "+e+": a cancelled or timed-out request (or a not-found result) can be retried")
@@ -403,53 +530,60 @@ func c13r5(p *Program, r *Report) {
 	// because run may drop its result when the context ends, a receiver of results that does not also watch the
 	// context can wait for a result nobody will send
 	for _, name := range []string{"(*queryExecutor).executeQuery", "(*queryExecutor).speculate"} {
-		f2 := r.NeedFunc(name)
-		if f2 == nil {
+		anchor := r.NeedFunc(name)
+		if anchor == nil {
 			continue
 		}
-		i2 := f2.Pkg.TypesInfo
 		n := 0
-		ast.Inspect(f2.Decl.Body, func(x ast.Node) bool {
-			u, ok := x.(*ast.UnaryExpr)
-			if !ok || u.Op != token.ARROW {
-				return true
+		// the function and the helpers it was split into (not the executions it starts)
+		for _, f2 := range p.unitsOf(anchor) {
+			f2 := f2
+			if f2 != anchor && (f2.Name == "(*queryExecutor).run" || f2.Name == "(*queryExecutor).do" || f2.Name == "(*queryExecutor).speculate" || f2.Name == "(*queryExecutor).attemptQuery") {
+				continue
 			}
-			t := i2.TypeOf(u.X)
-			if t == nil {
-				return true
-			}
-			ch, isCh := t.Underlying().(*types.Chan)
-			if !isCh || typeNameOf(ch.Elem()) != "Iter" {
-				return true
-			}
-			n++
-			watched := false
-			// the receive must be the communication of a select case with a sibling on <-ctx.Done()
-			var stmt ast.Node = u
-			for stmt != nil {
-				if _, isCC := p.Parent(stmt).(*ast.CommClause); isCC {
-					break
+			i2 := f2.Pkg.TypesInfo
+			ast.Inspect(f2.Decl.Body, func(x ast.Node) bool {
+				u, ok := x.(*ast.UnaryExpr)
+				if !ok || u.Op != token.ARROW {
+					return true
 				}
-				stmt = p.Parent(stmt)
-				if stmt == ast.Node(f2.Decl) {
-					stmt = nil
+				t := i2.TypeOf(u.X)
+				if t == nil {
+					return true
 				}
-			}
-			if stmt != nil {
-				if cc, ok := p.Parent(stmt).(*ast.CommClause); ok && cc.Comm == stmt {
-					if sel, ok := p.Parent(p.Parent(cc)).(*ast.SelectStmt); ok {
-						for _, sib := range commClauses(sel) {
-							if chx := recvChan(sib.Comm); chx != nil && strings.HasSuffix(exprStr(chx), ".Done()") {
-								watched = true
+				ch, isCh := t.Underlying().(*types.Chan)
+				if !isCh || typeNameOf(ch.Elem()) != "Iter" {
+					return true
+				}
+				n++
+				watched := false
+				// the receive must be the communication of a select case with a sibling on <-ctx.Done()
+				var stmt ast.Node = u
+				for stmt != nil {
+					if _, isCC := p.Parent(stmt).(*ast.CommClause); isCC {
+						break
+					}
+					stmt = p.Parent(stmt)
+					if stmt == ast.Node(f2.Decl) {
+						stmt = nil
+					}
+				}
+				if stmt != nil {
+					if cc, ok := p.Parent(stmt).(*ast.CommClause); ok && cc.Comm == stmt {
+						if sel, ok := p.Parent(p.Parent(cc)).(*ast.SelectStmt); ok {
+							for _, sib := range commClauses(sel) {
+								if chx := recvChan(sib.Comm); chx != nil && strings.HasSuffix(exprStr(chx), ".Done()") {
+									watched = true
+								}
 							}
 						}
 					}
 				}
-			}
-			r.Check(watched, u, name+" waits for a result only together with the context", "receive from results in a select with <-ctx.Done()",
-				"the result channel is read with a bare receive: run() drops its result when the context ends (its select takes <-ctx.Done()), so after cancellation or a deadline nothing may ever arrive and the caller hangs")
-			return true
-		})
+				r.Check(watched, u, name+" waits for a result only together with the context", "receive from results in a select with <-ctx.Done()",
+					"the result channel is read with a bare receive: run() drops its result when the context ends (its select takes <-ctx.Done()), so after cancellation or a deadline nothing may ever arrive and the caller hangs")
+				return true
+			})
+		}
 		if n == 0 {
 			r.Unresolved("%s: no receive from the results channel", name)
 		}
